@@ -7,6 +7,7 @@
    the ORIGINAL text but the lexer decodes the ESCAPED one; LexCtx.decode_ctx (a decoding step does not depend on a context
    that does not start with a continuation byte) closes it, since an escaped spelling never starts with a continuation byte. *)
 Require Import Lex LexProof LexFuel LexCtx LexQuote LexField.
+Require Export Escape.
 From Coq Require Import List Ascii String NArith Bool Arith Lia ZifyBool ZifyN ZifyNat.
 Import ListNotations.
 
@@ -36,17 +37,8 @@ Hypothesis error_not_alnum : is_alnum cl rune_error = false.
 
 Notation bs := "\"%char.
 
-(* the escaped spelling, rune by rune; n bounds the number of runes (esc uses the length of the text) *)
-Fixpoint esc_u (n : nat) (s : bytes) : bytes :=
-  match n with
-  | 0 => []
-  | S n' =>
-    match decode_rune s with
-    | None => []
-    | Some (r, w) => (if is_alnum cl r then firstn w s else bs :: firstn w s) ++ esc_u n' (skipn w s)
-    end
-  end.
-Definition esc (s : bytes) : bytes := esc_u (List.length s) s.
+Notation esc_u := (Escape.esc_u cl).
+Notation esc := (Escape.esc cl).
 
 Lemma alnum92 : is_alnum cl 92 = false.
 Proof. unfold is_alnum. destruct backslash_not_alnum as [-> ->]. reflexivity. Qed.
@@ -60,7 +52,7 @@ Qed.
 
 Lemma hd_ok_esc : forall n s, hd_ok (esc_u n s).
 Proof.
-  intros [|n] s; [exact I|]. cbn [esc_u]. destruct (decode_rune s) as [[r w]|] eqn:D; [|exact I].
+  intros [|n] s; [exact I|]. cbn [Escape.esc_u]. destruct (decode_rune s) as [[r w]|] eqn:D; [|exact I].
   destruct (is_alnum cl r) eqn:A; [|cbn; reflexivity].
   destruct s as [|c s]; [discriminate|]. pose proof (decode_width _ _ _ D) as W.
   destruct w as [|w]; [lia|]. cbn [firstn app hd_ok]. exact (first_of_alnum_not_cont c s r (S w) D A).
@@ -76,7 +68,7 @@ Qed.
 
 Lemma esc_length : forall n s, List.length s <= n -> List.length s <= List.length (esc_u n s).
 Proof.
-  induction n as [|n IH]; intros s H; [lia|]. cbn [esc_u]. destruct (decode_rune s) as [[r w]|] eqn:D.
+  induction n as [|n IH]; intros s H; [lia|]. cbn [Escape.esc_u]. destruct (decode_rune s) as [[r w]|] eqn:D.
   - destruct (chunk_len s r w D) as [L1 L2]. specialize (IH (skipn w s) ltac:(lia)).
     pose proof (firstn_skipn w s) as FS. apply (f_equal (@List.length _)) in FS. rewrite app_length in FS.
     destruct (is_alnum cl r); rewrite app_length; cbn [List.length]; lia.
@@ -88,9 +80,9 @@ Lemma lex_word_esc : forall n s acc fuel, List.length s <= n -> List.length s < 
   lex_word cl fuel (esc_u n s) acc = Tok {| typ := word_type (rev acc ++ esc_u n s); val := rev acc ++ esc_u n s |} [].
 Proof.
   induction n as [|n IH]; intros s acc fuel Hn Hf.
-  - destruct fuel as [|fu]; [lia|]. cbn [esc_u lex_word]. change (decode_rune []) with (@None (N * nat)). cbv iota.
+  - destruct fuel as [|fu]; [lia|]. cbn [Escape.esc_u lex_word]. change (decode_rune []) with (@None (N * nat)). cbv iota.
     rewrite app_nil_r. reflexivity.
-  - destruct fuel as [|fu]; [lia|]. cbn [esc_u]. destruct (decode_rune s) as [[r w]|] eqn:D.
+  - destruct fuel as [|fu]; [lia|]. cbn [Escape.esc_u]. destruct (decode_rune s) as [[r w]|] eqn:D.
     2:{ cbn [lex_word]. change (decode_rune []) with (@None (N * nat)). cbv iota. rewrite app_nil_r. reflexivity. }
     destruct (chunk_len s r w D) as [L1 L2]. pose proof (decode_before_esc s r w n D) as D'.
     set (x := firstn w s) in *. set (e := esc_u n (skipn w s)) in *.
@@ -110,7 +102,7 @@ Lemma esc_front c0 s : exists r w,
   skip_space (esc (c0 :: s)) = esc (c0 :: s) /\ decode_rune (esc (c0 :: s)) = Some (r, w) /\
   (is_alnum cl r || is_wildcard r || is_escape r) = true.
 Proof.
-  unfold esc. cbn [List.length esc_u]. destruct (decode_rune (c0 :: s)) as [[r w]|] eqn:D; [|exfalso; exact (decode_cons c0 s D)].
+  unfold Escape.esc. cbn [List.length Escape.esc_u]. destruct (decode_rune (c0 :: s)) as [[r w]|] eqn:D; [|exfalso; exact (decode_cons c0 s D)].
   pose proof (decode_before_esc (c0 :: s) r w (List.length s) D) as D'. pose proof (decode_width _ _ _ D) as W.
   destruct (is_alnum cl r) eqn:A.
   - exists r, w. split; [|split; [exact D'|rewrite A; reflexivity]].
@@ -125,7 +117,7 @@ Lemma next_esc c0 s :
   next_token cl (esc (c0 :: s)) = ({| typ := word_type (esc (c0 :: s)); val := esc (c0 :: s) |}, []).
 Proof.
   destruct (esc_front c0 s) as [r [w [Sk [D Hd]]]]. unfold next_token. rewrite Sk, D. cbv iota beta zeta. rewrite Hd.
-  unfold esc. rewrite (lex_word_esc (List.length (c0 :: s)) (c0 :: s) []); [reflexivity|lia|].
+  unfold Escape.esc. rewrite (lex_word_esc (List.length (c0 :: s)) (c0 :: s) []); [reflexivity|lia|].
   pose proof (esc_length (List.length (c0 :: s)) (c0 :: s) (le_n _)). lia.
 Qed.
 
@@ -139,7 +131,7 @@ Proof.
   intros Hf Hty Hty2. unfold lex.
   remember (List.length ((c0 :: f) ++ ":"%char :: esc (d0 :: w))) as n eqn:En.
   assert (Hn : 3 <= n).
-  { subst n. rewrite app_length. pose proof (esc_length (List.length (d0 :: w)) (d0 :: w) (le_n _)). unfold esc. cbn [List.length] in *. lia. }
+  { subst n. rewrite app_length. pose proof (esc_length (List.length (d0 :: w)) (d0 :: w) (le_n _)). unfold Escape.esc. cbn [List.length] in *. lia. }
   destruct n as [|[|[|n]]]; try lia.
   cbn [lex_all]. rewrite (next_word cl dq_not_alnum colon_not_alnum ws_not_alnum c0 f _ Hf). cbn [typ]. rewrite Hty.
   rewrite (next_colon cl dq_not_alnum colon_not_alnum) || rewrite (next_colon cl colon_not_alnum). cbn [typ].
@@ -151,12 +143,12 @@ End U.
 
 (* on an ASCII text the rune-level spelling is the byte-level one of LexEscape.v *)
 Lemma esc_u_ascii (cl : classes) : forall n s, List.length s <= n -> forallb (fun c => (bval c <? 128)%N) s = true ->
-  esc_u cl n s = (fix go (w : bytes) : bytes := match w with [] => [] | c :: r => if wordc cl c then c :: go r else "\"%char :: c :: go r end) s.
+  Escape.esc_u cl n s = (fix go (w : bytes) : bytes := match w with [] => [] | c :: r => if wordc cl c then c :: go r else "\"%char :: c :: go r end) s.
 Proof.
   induction n as [|n IH]; intros s Hn Ha.
   - destruct s; [reflexivity|cbn in Hn; lia].
   - destruct s as [|c s]; [reflexivity|]. cbn [forallb] in Ha. apply andb_true_iff in Ha. destruct Ha as [Hc Ha].
-    cbn [esc_u]. rewrite (decode_ascii c s Hc). cbn [firstn skipn]. unfold wordc. rewrite Hc. cbn [andb].
+    cbn [Escape.esc_u]. rewrite (decode_ascii c s Hc). cbn [firstn skipn]. unfold wordc. rewrite Hc. cbn [andb].
     cbn [List.length] in Hn. rewrite (IH s ltac:(lia) Ha). destruct (is_alnum cl (bval c)); reflexivity.
 Qed.
 
